@@ -54,6 +54,11 @@ def cases(tier, seed):
                         cid = 'pat_T%d_mr%d_md%d_%s%d%s' % (T, mr, md, st, k, '_chp' if heat else '')
                         out.append((cid, dict(kind='pattern', T=T, mr=mr, md=md, tar=k if st == 'on' else 0,
                                               tao=k if st == 'off' else 0, heat=heat, start_costs=(mr + md) % 2 == 0)))
+    # the same pattern obligations with durations given in main time units on grids whose step is not one unit
+    for pg in PATTERN_GRIDS:
+        for (mr, md, st, k) in sorted(_QUICK_PAT) if tier == 'thorough' else sorted(_QUICK_PAT)[::4]:
+            out.append(('pat_%s_T4_mr%d_md%d_%s%d' % (pg, mr, md, st, k), dict(kind='pattern', T=4, mr=mr, md=md, tar=k if st == 'on' else 0,
+                                                                              tao=k if st == 'off' else 0, heat=False, start_costs=True, pgrid=pg)))
     phys = PHYS_THOROUGH if tier == 'thorough' else PHYS_QUICK
     for cid, kw in phys:
         out.append((cid, dict(kind='physics', **kw)))
@@ -92,9 +97,9 @@ PHYS_THOROUGH = PHYS_QUICK + [
 
 # ------------------------------------------------------------------------------------------------ helpers
 def build_plant(D, T, heat, fuel, mr, md, tar, tao, ramp=False, last=None, cf=None, sr=None, sdr=None, start_costs=True,
-                min_zero=False, portfolio=False, freq='h', mincap_ts=False):
+                min_zero=False, portfolio=False, freq='h', mincap_ts=False, unit='h'):
     eao = lift.import_eao()
-    tg = shapes.grid(T, freq)
+    tg = shapes.grid(T, freq, unit)
     names = ['P'] + (['H'] if heat else []) + (['G'] if fuel else [])
     nds = shapes.nodes(*names)
     kw = {}
@@ -200,9 +205,16 @@ def run_case(case_id, tier, seed, kind, **kw):
     return run_physics(rec, seed, **kw)
 
 
-def run_pattern(rec, seed, T, mr, md, tar, tao, heat, start_costs):
+# pattern cases on grids whose step is not one main time unit: durations are given in main time units (f = step length in main units),
+# the specification stays in steps
+PATTERN_GRIDS = {'30min_h': ('30min', 'h', 0.5), '12h_d': ('12h', 'd', 0.5), 'd_h': ('d', 'h', 24.0), '15min_min': ('15min', 'min', 15.0)}
+
+
+def run_pattern(rec, seed, T, mr, md, tar, tao, heat, start_costs, pgrid=None):
+    freq, unit, f = PATTERN_GRIDS[pgrid] if pgrid else ('h', 'h', 1)
+
     def build(D):
-        pl, tg, prices, nds = build_plant(D, T, heat, False, mr, md, tar, tao, start_costs=start_costs)
+        pl, tg, prices, nds = build_plant(D, T, heat, False, mr * f, md * f, tar * f, tao * f, start_costs=start_costs, freq=freq, unit=unit)
         return pl, pl.setup_optim_problem(prices, tg)
     res = lift.explore_build(build, level='A')
     rec.paths = len(res)
@@ -429,7 +441,9 @@ def observe(case, kwargs, env, rq):
     kw = dict(kwargs)
     kind = kw.pop('kind')
     if kind == 'pattern':
-        pl, tg, prices, nds = build_plant(D, kw['T'], kw['heat'], False, kw['mr'], kw['md'], kw['tar'], kw['tao'], start_costs=kw['start_costs'])
+        freq_, unit_, f_ = PATTERN_GRIDS[kw['pgrid']] if kw.get('pgrid') else ('h', 'h', 1)
+        pl, tg, prices, nds = build_plant(D, kw['T'], kw['heat'], False, kw['mr'] * f_, kw['md'] * f_, kw['tar'] * f_, kw['tao'] * f_,
+                                          start_costs=kw['start_costs'], freq=freq_, unit=unit_)
         op = pl.setup_optim_problem(prices, tg)
         o = dict(problem=obs.problem_obs(op))
         if rq.get('kind') == 'replay':
